@@ -81,7 +81,10 @@ def scenario_lines(prefix, parks, cops, workers):
     lines = list(prefix)
     lines.append("conc %s" % parks)
     for d, op in cops:
-        lines.append("cop %d %s" % (d, op))
+        if isinstance(d, str):          # "delay@deadline": the request carries a context deadline (0 = already cancelled)
+            lines.append("copd %s %s %s" % (d.split("@")[0], d.split("@")[1], op))
+        else:
+            lines.append("cop %d %s" % (d, op))
     lines.append("go %d" % workers)
     lines.append("export")
     return lines
@@ -153,3 +156,30 @@ def cross_soak(r, accts, n, kind=None):
             else:
                 cops.append((0, att_op(adr, 1, lo[o.pk], r.below(4))))
     return prefix, cops
+
+
+def deadline_soak(r, accts, n):
+    """requests whose context is already cancelled or runs out while they queue (a client that gave up), mixed with
+    ordinary ones on shared keys, one key parked: every request must still return, and so must those after it"""
+    good = [a for a in accts if a.unlockable and a.wallet == "Wallet 1"]
+    hi = {a.pk: 2 for a in good}
+    cops = []
+    for i in range(n):
+        ys = r.shuffle(good)[:1 + r.below(3)]
+        items = []
+        for y in ys:
+            hi[y.pk] += 1
+            items.append(att_item(r.choice([name(y), key(y)]), 1, hi[y.pk], r.below(4)))
+        op = atts_op(items) if len(items) > 1 or r.chance(0.3) else "att %s - %s %s -" % (hx("client1"), items[0].split(",", 1)[0], items[0].split(",", 1)[1])
+        k = r.weighted([("plain", 5), ("cancelled", 2), ("short", 3), ("long", 1)])
+        d = r.below(30)
+        if k == "plain":
+            cops.append((d, op))
+        elif k == "cancelled":
+            cops.append(("%d@0" % d, op))
+        elif k == "short":
+            cops.append(("%d@%d" % (d, 1 + r.below(20)), op))
+        else:
+            cops.append(("%d@%d" % (d, 200 + r.below(200)), op))
+    parks = "%s:%d" % (r.choice(good).pk.hex()[:16], 60 + r.below(60))
+    return parks, cops
